@@ -288,4 +288,107 @@ Proof.
   intros k. rewrite S''. apply spec_hist_ext. exact S'.
 Qed.
 
+(* ---- every crash point of every history ---- *)
+Fixpoint hist_trace (s : world * local) (ops : list opn) : list event :=
+  match ops with [] => [] | o :: t => prog (fst s) o ++ hist_trace (run_events s (prog (fst s) o)) t end.
+
+Lemma run_hist_trace : forall ops s, run_events s (hist_trace s ops) = run_hist s ops.
+Proof.
+  clear H_inj. induction ops as [|o t IH]; intros s; cbn [hist_trace run_hist]; [reflexivity|].
+  unfold run_events. rewrite fold_left_app. fold (run_events s (prog (fst s) o)). apply IH.
+Qed.
+
+Lemma step_always_inv s o : Inv (fst s) -> pending (snd s) = [] -> pre (fst s) o -> always (fun w' => Inv w') s (prog (fst s) o).
+Proof.
+  intros HI Hp Hpre. destruct s as [w l]. cbn [fst snd] in *. destruct o; cbn [prog pre] in *.
+  - intros m. exact (proj1 (add_loose_crash_safe H inflate H_inj w l n chunks m HI)).
+  - destruct Hpre as (A & B & C). intros m. exact (proj1 (pack_one_always H inflate H_inj w l id objs fs clean HI Hp A B C m)).
+  - intros m. exact (proj1 (add_to_pack_always H inflate H_inj w l id objs nh twice fs HI Hp Hpre m)).
+  - intros m. exact (proj1 (import_always H inflate H_inj w l bs nh twice fs HI Hp Hpre m)).
+  - intros m. exact (proj1 (delete_always H inflate w l ks HI Hp m)).
+  - intros m. exact (proj1 (clean_always H inflate w l false vacuum order HI Hp m)).
+  - destruct Hpre as (Hid & Hno & [(Hne & Hobjs & Hcov)|(He & ->)]).
+    + intros m. exact (proj1 (repack_always H inflate H_inj w id objs HI Hid Hno Hobjs Hcov l false Hp Hne m)).
+    + intros m. exact (proj1 (repack_empty_always H inflate H_inj w l id false HI He m)).
+Qed.
+
+(* C03 / C05 for whole histories: kill the process after ANY number of primitives of ANY history - in the middle of whichever
+   operation - and the folder satisfies the invariant *)
+Theorem history_every_crash_point : forall ops s,
+  Inv (fst s) -> pending (snd s) = [] -> pre_hist s ops ->
+  forall n, Inv (crash (run_events s (firstn n (hist_trace s ops)))).
+Proof.
+  induction ops as [|o t IH]; intros s HI Hp Hpre.
+  - intros n. cbn [hist_trace]. rewrite firstn_nil. exact HI.
+  - destruct Hpre as [Ho Ht]. cbn [hist_trace].
+    destruct (step_refines s o HI Hp Ho) as (I' & P' & _).
+    apply (always_app (fun w' => Inv w')).
+    + exact (step_always_inv s o HI Hp Ho).
+    + exact (IH _ I' P' Ht).
+Qed.
+
+(* ---- one call that rolls over several packs is a history of one-pack segments ---- *)
+(* direct-to-pack: each segment (objs_i written to pack id_i, committed) is an OTopack; the preconditions do not depend on the world *)
+Lemma topack_segments_pre nh twice fs : forall (segs : list (Z * list pobj)) s,
+  Forall (fun sg => Forall aobj_ok (snd sg)) segs ->
+  pre_hist s (map (fun sg => OTopack (fst sg) (snd sg) nh twice fs) segs).
+Proof.
+  clear H_inj. induction segs as [|sg t IH]; intros s Hall; cbn [map pre_hist]; [exact I|].
+  inversion Hall as [|? ? Hs Ht]; subst. split; [exact Hs|]. apply IH. exact Ht.
+Qed.
+
+Lemma NoDup_app_l {A} (a b : list A) : NoDup (a ++ b) -> NoDup a.
+Proof. induction a as [|x t IH]; intros Hn; [constructor|]. cbn in Hn. inversion Hn; subst. constructor; [intros Hi; apply H2; apply in_or_app; left; exact Hi|auto]. Qed.
+Lemma NoDup_app_r {A} (a b : list A) : NoDup (a ++ b) -> NoDup b.
+Proof. induction a as [|x t IH]; intros Hn; [exact Hn|]. cbn in Hn. inversion Hn; subst. auto. Qed.
+
+(* pack_all_loose: the loose objects of the later segments are still loose, complete and unindexed when their segment starts *)
+Lemma pack_segments_pre fs clean : forall (segs : list (Z * list pobj)) s,
+  Inv (fst s) -> pending (snd s) = [] ->
+  Forall (obj_ok inflate (fst s)) (concat (map snd segs)) -> NoDup (map okey (concat (map snd segs))) ->
+  (forall x, In x (concat (map snd segs)) -> ~ In (okey x) (map rkey (db (fst s)))) ->
+  pre_hist s (map (fun sg => OPack (fst sg) (snd sg) fs clean) segs).
+Proof.
+  induction segs as [|[id objs] t IH]; intros s HI Hp Hok Hnd Hfr; cbn [map pre_hist fst snd]; [exact I|].
+  cbn [map concat snd] in Hok, Hnd, Hfr. rewrite map_app in Hnd.
+  apply Forall_app in Hok as [Hok1 Hok2].
+  assert (Hnd1 : NoDup (map okey objs)) by (eapply NoDup_app_l; exact Hnd).
+  assert (Hnd2 : NoDup (map okey (concat (map snd t)))) by (eapply NoDup_app_r; exact Hnd).
+  assert (Hfr1 : forall x, In x objs -> ~ In (okey x) (map rkey (db (fst s)))) by (intros x Hx; apply Hfr; apply in_or_app; left; exact Hx).
+  assert (Hpre : pre (fst s) (OPack id objs fs clean)) by (cbn [pre]; auto).
+  split; [exact Hpre|].
+  destruct (step_refines s (OPack id objs fs clean) HI Hp Hpre) as (I' & P' & _). cbn [prog] in *.
+  destruct s as [w l]. cbn [fst snd] in *.
+  destruct (pack_one_final H inflate H_inj w l id objs fs clean HI Hp Hok1 Hnd1 Hfr1) as (w' & l' & syn & Er & Edb & _ & _ & El).
+  rewrite Er in *. cbn [fst snd] in *.
+  (* keys of the first segment and of the rest are disjoint *)
+  assert (Hdisj : forall x, In x (concat (map snd t)) -> ~ In (okey x) (map okey objs)).
+  { intros x Hx Hin. clear - Hnd Hx Hin. induction (map okey objs) as [|k ks IHk]; [destruct Hin|].
+    cbn [app] in Hnd. inversion Hnd as [|? ? Hn Hnd']; subst. destruct Hin as [->|Hin]; [|exact (IHk Hnd' Hin)].
+    apply Hn. apply in_or_app. right. apply in_map. exact Hx. }
+  apply IH; [exact I'|exact P'| | exact Hnd2 |]; cbn [fst snd prog]; rewrite ?Er; cbn [fst].
+  - rewrite Forall_forall in Hok2 |- *. intros x Hx. destruct (Hok2 x Hx) as (f & Hg & Hd & Hs).
+    exists f. split; [rewrite (El (okey x) (Hdisj x Hx)); exact Hg|]. split; [exact Hd|exact Hs].
+  - intros x Hx Hin. rewrite Edb, map_app in Hin. apply in_app_or in Hin as [Hin|Hin].
+    + apply (Hfr x); [apply in_or_app; right; exact Hx|exact Hin].
+    + rewrite rows_from_keys in Hin. exact (Hdisj x Hx Hin).
+Qed.
+
+(* C02 / C03 / C05 for a pack_all_loose call that fills any number of packs: every crash point satisfies the invariant, and afterwards
+   every key reads back exactly as before *)
+Theorem pack_multi fs clean (segs : list (Z * list pobj)) s :
+  Inv (fst s) -> pending (snd s) = [] ->
+  Forall (obj_ok inflate (fst s)) (concat (map snd segs)) -> NoDup (map okey (concat (map snd segs))) ->
+  (forall x, In x (concat (map snd segs)) -> ~ In (okey x) (map rkey (db (fst s)))) ->
+  let ops := map (fun sg => OPack (fst sg) (snd sg) fs clean) segs in
+  (forall n, Inv (crash (run_events s (firstn n (hist_trace s ops))))) /\
+  Inv (fst (run_hist s ops)) /\ forall k, stored (fst (run_hist s ops)) k = stored (fst s) k.
+Proof.
+  intros HI Hp Hok Hnd Hfr ops.
+  pose proof (pack_segments_pre fs clean segs s HI Hp Hok Hnd Hfr) as Hpre. fold ops in Hpre.
+  split; [exact (history_every_crash_point ops s HI Hp Hpre)|].
+  destruct (history_refines ops s HI Hp Hpre) as (A & B). split; [exact A|].
+  intros k. rewrite B. clear. unfold ops. generalize (stored (fst s)). induction segs as [|sg t IH]; intros m; cbn [map spec_hist spec]; [reflexivity|apply IH].
+Qed.
+
 End Hist.
